@@ -2343,8 +2343,15 @@ class BaseInterpreter(Generic[TContext, TEvent]):
                     ancestor.id,
                 )
                 await self.send(done_event)
-                # Per SCXML, only fire for the first completed ancestor.
-                return
+                # Only fire for the first completed ancestor - unless it is a
+                # region: its completion may be what completes the parallel
+                # parent, whose own `onDone` was otherwise never raised when
+                # the LAST region to finish declared an `onDone` itself.
+                if not (
+                    ancestor.parent is not None
+                    and ancestor.parent.type == "parallel"
+                ):
+                    return
             ancestor = ancestor.parent
 
         # 🏁 A top-level final state completes the machine itself.
